@@ -40,6 +40,15 @@ def gen_case(rng):
                 e["cache"] = rng.choice(caches)
             if len(e) > 1:
                 mapping.append(e)
+    # sometimes a storage prefix sits strictly inside a directory object, at a sub-directory the (not yet expanded) index has
+    # no node for
+    for dk, sub in dirobjs.items():
+        inner = sorted({rk[:1] for rk in sub if len(rk) > 1})
+        # (only when the directory object itself is pushed somewhere too: otherwise nothing could ever expand it on fetch)
+        if inner and "remote" in root and rng.random() < 0.5:
+            # it designates its own remote; the cache stays that of the enclosing entry (a directory object is pushed from and
+            # checked out of one cache)
+            mapping.append({"prefix": list(dk + inner[0]), "remote": rng.choice(remotes)})
     rng.shuffle(mapping)
     return {
         "files": {"/".join(k): v.decode() for k, v in files.items()},
@@ -110,6 +119,14 @@ class World:
             s.update(md5hex(c) for c in self.dirobjs[k].values())
         return s
 
+    def reach_keys(self, k, oid, isdir):
+        """(key, oid) of the entry and - for a directory object - of every file it lists: each is resolved through the
+        mapping by its *own* key (a storage prefix may sit inside a directory object)"""
+        out = [(k, oid)]
+        if isdir:
+            out += [(k + r, md5hex(c)) for r, c in self.dirobjs[k].items()]
+        return out
+
     def index(self, cache_suffix=""):
         from dvc_data.hashfile.hash_info import HashInfo
         from dvc_data.hashfile.meta import Meta
@@ -129,11 +146,10 @@ class World:
     def fill_caches(self):
         """the data is in the cache the mapping designates for each entry"""
         for k, oid, isdir in self.entries():
-            c = self.resolve(k, "cache")
-            if c is None:
-                continue
-            for o in self.reach(k, oid, isdir):
-                stores.put_raw(self.odb(c).path, o, self.content[o])
+            for kk, o in self.reach_keys(k, oid, isdir):
+                c = self.resolve(kk, "cache")
+                if c is not None:
+                    stores.put_raw(self.odb(c).path, o, self.content[o])
 
 
 def check(ctx, case):
@@ -149,9 +165,10 @@ def check(ctx, case):
     # what has to reach which remote: entries whose cache and remote are both designated
     want = {}
     for k, oid, isdir in ents:
-        r, c = w.resolve(k, "remote"), w.resolve(k, "cache")
-        if r and c:
-            want.setdefault(r, set()).update(w.reach(k, oid, isdir))
+        for kk, o in w.reach_keys(k, oid, isdir):
+            r, c = w.resolve(kk, "remote"), w.resolve(kk, "cache")
+            if r and c:
+                want.setdefault(r, set()).add(o)
     allobjs = sorted(set().union(*want.values())) if want else []
     fail = [o for o in allobjs if rng.random() < case["fail_fraction"]]
     ctx.case(case, nontrivial=len(want) >= 1 and len(case["mapping"]) >= 2)
@@ -202,9 +219,10 @@ def check(ctx, case):
     if k3 == "ok":
         wantc = {}
         for k, oid, isdir in ents:
-            r, c = w.resolve(k, "remote"), w.resolve(k, "cache")
-            if r and c:
-                wantc.setdefault(c, set()).update(w.reach(k, oid, isdir))
+            for kk, o in w.reach_keys(k, oid, isdir):
+                r, c = w.resolve(kk, "remote"), w.resolve(kk, "cache")
+                if r and c:
+                    wantc.setdefault(c, set()).add(o)
         for c in ("K1", "K2"):
             got = set(stores.listing_of(w.odb(c, "-fresh").path))
             # (entries of a longer prefix may also be fetched into the shorter prefix's cache: allowed, see DESIGN)
@@ -227,6 +245,8 @@ def check(ctx, case):
         for d, sub in w.dirobjs.items():
             if w.resolve(d, "cache") and w.resolve(d, "remote"):
                 for r, c in sub.items():
+                    if not (w.resolve(d + r, "cache") and w.resolve(d + r, "remote")):
+                        continue
                     ctx.oracle(got_files.get("/".join(d + r)) == c, case, {"why": "checkout from the fetched cache does not reproduce a file of a directory object", "path": "/".join(d + r)}, signature=sig)
     # ---- correspondence: resolution and the push plan
     entries = [{"key": list(k), "isdir": isdir, "hash": oid, "loaded": False} for k, oid, isdir in ents]
@@ -257,7 +277,7 @@ def check(ctx, case):
 def run(ctx):
     ctx.rule = (
         "indexes with files and directory objects (nested listings, contents shared between trees and prefixes) under 1-4 storage "
-        "prefixes (root and/or sub-trees) whose cache/remote roles are set independently and whose remotes may be shared by sibling "
+        "prefixes (root, sub-trees, and sub-directories strictly inside directory objects) whose cache/remote roles are set independently and whose remotes may be shared by sibling "
         "prefixes; a first push with a random subset of failing uploads, a clean retry, fetch into empty caches, checkout from them; "
         "with/without a remote index, both store classes. non-trivial = >=2 prefixes and something to push"
     )
